@@ -71,7 +71,7 @@ func TestVerif_C10_AdmissionMachine(t *testing.T) {
 	defer c10sRec.Flush()
 	rapid.Check(t, func(t *rapid.T) {
 		r := newRoom(t, "C10", rapid.IntRange(4, 6).Draw(t, "nclients"))
-		r.run(intentWeights{"join": 10, "leave": 4, "disconnect": 1, "lock": 3, "moderate": 3, "chat": 1, "flap": 2}, 45)
+		r.run(intentWeights{"join": 10, "leave": 4, "disconnect": 1, "lock": 3, "moderate": 3, "chat": 1, "flap": 2, "redefine": 2}, 45)
 		adm := r.st.joinsRefused - r.st.refusedReasons["credentials"]
 		c10sRec.Case(adm > 0 && r.st.joinsOK > 0, r.canon(), r.sample())
 		r.classes(c10sRec)
